@@ -57,6 +57,23 @@ func explore(cfg Config, workers int, name string, body func(in *Interp) interfa
 	active, started := 0, 0
 	seen := map[string]bool{}
 	var wg sync.WaitGroup
+	stopProgress := make(chan struct{})
+	if os.Getenv("VERIF_PROGRESS") != "" {
+		go func() {
+			tk := time.NewTicker(10 * time.Second)
+			defer tk.Stop()
+			for {
+				select {
+				case <-stopProgress:
+					return
+				case <-tk.C:
+					mu.Lock()
+					fmt.Fprintf(os.Stderr, "[%s %.0fs] paths=%d queue=%d active=%d ends=%v violations=%d\n", name, time.Since(t0).Seconds(), er.Paths, len(queue), active, er.Ends, len(er.Violations))
+					mu.Unlock()
+				}
+			}
+		}()
+	}
 	for w := 0; w < workers; w++ {
 		wg.Add(1)
 		go func() {
@@ -148,6 +165,7 @@ func explore(cfg Config, workers int, name string, body func(in *Interp) interfa
 		}()
 	}
 	wg.Wait()
+	close(stopProgress)
 	er.Wall = time.Since(t0).Seconds()
 	sort.Slice(er.Violations, func(i, j int) bool { return er.Violations[i].Key < er.Violations[j].Key })
 	return er
@@ -186,6 +204,7 @@ func runBarePath(solver *Solver, cfg *Config, name string, prefix []Decision, bo
 // ---- bngsym bpf ----
 
 type bpfPathOut struct {
+	merged  int
 	verdict uint64
 	lenAft  string
 	events  int
@@ -199,6 +218,8 @@ func cmdBPF(args []string) int {
 	L := fs.Int("L", 64, "maximum packet length (the packet has symbolic length 0..L)")
 	minL := fs.Int("minL", 0, "minimum packet length")
 	maps := fs.String("maps", "symbolic", "symbolic | empty")
+	mapOv := fs.String("map", "", "per-map overrides: name=symbolic|empty[,name=...]")
+	maxHits := fs.Int("maxhits", 0, "bound on the arbitrary entries a symbolic map may reveal per path (0 = unlimited)")
 	workers := fs.Int("workers", 6, "")
 	solver := fs.String("solver", "z3-new", "")
 	timeout := fs.Int("timeout", 20000, "solver timeout per query (ms)")
@@ -267,20 +288,37 @@ func cmdBPF(args []string) int {
 	rc := 0
 	for _, ep := range eps {
 		verdicts := map[uint64]int{}
-		events := 0
+		events, merged := 0, 0
 		er := explore(cfg, *workers, *prog+":"+ep[0], func(in *Interp) interface{} {
 			pkt := in.NewSymbolicPacket("pkt", *L)
 			if *minL > 0 {
 				in.assume(in.tc.Cmp(OpULe, in.tc.Const(uint64(*minL), 64), pkt.Len))
 			}
 			env := &LLEnv{Packet: pkt, Maps: in.BPFMaps(*prog, onMiss)}
+			for _, m := range env.Maps {
+				m.MaxSymbolic = *maxHits
+			}
+			for _, kv := range strings.Split(*mapOv, ",") {
+				if i := strings.Index(kv, "="); i > 0 {
+					m := env.Maps[kv[:i]]
+					if m == nil {
+						panic(unsupported("llir: -map: no map " + kv[:i]))
+					}
+					if kv[i+1:] == "empty" {
+						m.OnMiss = "null"
+					} else {
+						m.OnMiss = "symbolic"
+					}
+				}
+			}
 			run, _ := in.RunBPF(*prog, ep[0], ep[1], env)
 			v := in.concretize(run.Verdict, "verdict")
-			return &bpfPathOut{verdict: v, events: len(env.Events)}
+			return &bpfPathOut{verdict: v, events: len(env.Events), merged: run.Merged}
 		}, func(out interface{}, res *PathResult, in *Interp) {
 			if o, ok := out.(*bpfPathOut); ok && o != nil {
 				verdicts[o.verdict]++
 				events += o.events
+				merged += o.merged
 			}
 		})
 		printExplore(er, *verbose)
@@ -293,7 +331,7 @@ func cmdBPF(args []string) int {
 		for _, v := range keys {
 			vs = append(vs, fmt.Sprintf("%d(%s)x%d", int32(v), verdictName(ep[1], v), verdicts[v]))
 		}
-		fmt.Printf("   verdicts: %s   events emitted on all paths: %d\n", strings.Join(vs, " "), events)
+		fmt.Printf("   verdicts: %s   events emitted on all paths: %d   if-converted branches: %d\n", strings.Join(vs, " "), events, merged)
 		if len(er.Violations) > 0 {
 			rc = 1
 		}
@@ -393,19 +431,22 @@ type stCase struct {
 	verdict int32
 	newLen  int
 	outPkt  []byte
-	maps    map[string][]stEntry
+	maps    []string // "map keyhex valhex" (?? = uninitialised byte)
 	events  []string
+	uninit  []string
 	problem string
 }
 
 func biasedBytes(rng *rand.Rand, n int) []byte {
 	b := make([]byte, n)
 	for i := range b {
-		switch rng.Intn(4) {
-		case 0:
+		switch rng.Intn(6) {
+		case 0, 1:
 			b[i] = byte(rng.Intn(4))
-		case 1:
+		case 2:
 			b[i] = 0
+		case 3:
+			b[i] = byte(rng.Intn(128))
 		default:
 			b[i] = byte(rng.Intn(256))
 		}
@@ -419,72 +460,113 @@ func randomPacket(rng *rand.Rand, capacity int) ([]byte, int) {
 	p := make([]byte, capacity)
 	rng.Read(p)
 	pick := func(vs ...int) int { return vs[rng.Intn(len(vs))] }
-	off := 12
+	pct := func(n int) bool { return rng.Intn(100) < n }
 	put16 := func(o int, v int) {
 		if o+1 < len(p) {
 			p[o], p[o+1] = byte(v>>8), byte(v)
 		}
 	}
-	et := pick(0x0800, 0x0800, 0x0800, 0x86dd, 0x8100, 0x88a8, 0x0806, rng.Intn(65536))
+	off := 12
+	et := 0x0800
+	switch r := rng.Intn(100); {
+	case r < 60:
+	case r < 70:
+		et = 0x86dd
+	case r < 82:
+		et = 0x8100
+	case r < 88:
+		et = 0x88a8
+	case r < 92:
+		et = 0x0806
+	default:
+		et = rng.Intn(65536)
+	}
 	put16(off, et)
 	off += 2
 	if et == 0x8100 || et == 0x88a8 {
-		inner := pick(0x0800, 0x0800, 0x8100, 0x86dd)
+		inner := pick(0x0800, 0x0800, 0x0800, 0x8100, 0x8100, 0x86dd)
+		put16(off, rng.Intn(65536))
 		put16(off+2, inner)
 		off += 4
 		if inner == 0x8100 {
-			put16(off+2, pick(0x0800, 0x0800, 0x0806))
+			put16(off+2, pick(0x0800, 0x0800, 0x0800, 0x0806))
 			off += 4
 		}
 	}
 	if off < len(p) {
-		p[off] = byte(0x40 | pick(5, 5, 5, 5, 6, 15, 0, 3))
+		ihl := 5
+		if pct(25) {
+			ihl = pick(6, 7, 15, 0, 3, 4)
+		}
+		p[off] = byte(0x40 | ihl)
+	}
+	proto := 17
+	switch r := rng.Intn(100); {
+	case r < 30:
+		proto = 6
+	case r < 70:
+	case r < 85:
+		proto = 1
+	default:
+		proto = pick(47, 50, rng.Intn(256))
 	}
 	if off+9 < len(p) {
-		p[off+9] = byte(pick(6, 17, 17, 17, 1, 47, rng.Intn(256)))
+		p[off+9] = byte(proto)
 	}
 	// private source addresses are interesting for nat44
-	if off+15 < len(p) && rng.Intn(2) == 0 {
-		copy(p[off+12:], [][]byte{{10, 1, 2, 3}, {192, 168, 1, 7}, {172, 16, 9, 9}, {100, 64, 0, 1}}[rng.Intn(4)])
+	if off+15 < len(p) && pct(70) {
+		copy(p[off+12:], [][]byte{{10, 1, 2, 3}, {192, 168, 1, 7}, {172, 16, 9, 9}, {100, 64, 0, 1}, {172, 32, 0, 1}, {100, 128, 0, 1}}[rng.Intn(6)])
 	}
 	l4 := off + int(p[min(off, len(p)-1)]&0xf)*4
-	if l4+3 < len(p) && rng.Intn(3) != 0 {
-		put16(l4, pick(68, 67, 5060, rng.Intn(65536)))
+	if l4+3 < len(p) && pct(70) {
+		put16(l4, pick(68, 67, 5060, 1024, rng.Intn(65536)))
 		put16(l4+2, pick(67, 67, 67, 21, 5060, rng.Intn(65536)))
 	}
+	if proto == 17 && l4+7 < len(p) && pct(30) {
+		put16(l4+6, 0) // no UDP checksum
+	}
 	d := l4 + 8
-	if d+240 < len(p) && rng.Intn(4) != 0 {
-		p[d] = byte(pick(1, 1, 1, 2))
-		copy(p[d+236:], []byte{0x63, 0x82, 0x53, 0x63})
+	if d+240 < len(p) && pct(80) {
+		if pct(85) {
+			p[d] = 1
+		}
+		if pct(90) {
+			copy(p[d+236:], []byte{0x63, 0x82, 0x53, 0x63})
+		}
 		o := d + 240
-		switch rng.Intn(4) {
+		switch rng.Intn(5) {
 		case 0:
 			copy(p[o:], []byte{53, 1, byte(pick(1, 3, 3, 5, 8))})
 		case 1:
 			copy(p[o:], []byte{0, 53, 1, byte(pick(1, 3))})
 		case 2:
 			copy(p[o:], []byte{53, 1, byte(pick(1, 3)), 82, 12, 1, byte(pick(4, 8, 10, 33, 0)), 'a', 'b', 'c', 'd'})
+		case 3:
+			copy(p[o:], []byte{61, 1, 7, 53, 1, byte(pick(1, 3))})
 		}
-		if rng.Intn(3) == 0 && o+20 < len(p) {
+		if pct(30) && o+30 < len(p) {
 			po := o + 12 + rng.Intn(8)
 			copy(p[po:], []byte{82, 10, 1, byte(pick(3, 6, 32, 40)), 'x', 'y', 'z'})
 		}
-		if rng.Intn(2) == 0 {
+		if pct(50) {
 			put16(d+10, pick(0x8000, 0))
 		}
-		if rng.Intn(2) == 0 {
+		if pct(50) {
 			copy(p[d+12:], []byte{0, 0, 0, 0})
 		}
-		if rng.Intn(2) == 0 {
+		if pct(50) {
 			copy(p[d+24:], []byte{0, 0, 0, 0})
+		}
+		if pct(20) {
+			copy(p[d+28:], []byte{0, 0, 0, 0, 0, 0})
 		}
 	}
 	plen := capacity
-	switch rng.Intn(6) {
-	case 0:
+	switch r := rng.Intn(100); {
+	case r < 12:
 		plen = rng.Intn(capacity + 1)
-	case 1:
-		plen = min(capacity, pick(13, 14, 33, 34, 35, 41, 42, 53, 54, 55, 61, 62, 281, 282, 283, 293, 294, 295, 346, 347))
+	case r < 30:
+		plen = min(capacity, pick(13, 14, 33, 34, 35, 41, 42, 53, 54, 55, 61, 62, 281, 282, 283, 293, 294, 295, 345, 346, 347, 350))
 	}
 	return p, plen
 }
@@ -498,6 +580,50 @@ func termBytes(ts []*Term) ([]byte, bool) {
 		out[i] = byte(t.V)
 	}
 	return out, true
+}
+
+// termHex renders concrete bytes as hex; bytes that are uninitialised memory (lazily created "uninit." symbols) are
+// rendered as "??" (the native run has garbage there). ok=false: some other symbolic byte.
+func termHex(ts []*Term) (string, int, bool) {
+	var sb strings.Builder
+	wild := 0
+	for _, t := range ts {
+		switch {
+		case t != nil && t.IsConst():
+			fmt.Fprintf(&sb, "%02x", t.V)
+		case t != nil && t.Op == OpVar && strings.Contains(t.Name, "uninit"):
+			sb.WriteString("??")
+			wild++
+		default:
+			return "", 0, false
+		}
+	}
+	return sb.String(), wild, true
+}
+
+// hexMatch compares an IR-side hex string (with ?? wildcards) against a native one.
+func hexMatch(ir, nat string) bool {
+	if len(ir) != len(nat) {
+		return false
+	}
+	for i := 0; i < len(ir); i++ {
+		if ir[i] != nat[i] && ir[i] != '?' {
+			return false
+		}
+	}
+	return true
+}
+
+func hexListMatch(ir, nat []string) bool {
+	if len(ir) != len(nat) {
+		return false
+	}
+	for i := range ir {
+		if !hexMatch(ir[i], nat[i]) {
+			return false
+		}
+	}
+	return true
 }
 
 func fnv64(parts ...[]byte) uint64 {
@@ -618,16 +744,21 @@ func selftestProg(prog string, n int, seed int64, capacity int, tmp string) int 
 	}
 	defer solver.Close()
 	var cases []*stCase
+	nMerged := 0
+	cover := map[string]bool{}
 	for ei, ep := range eps {
 		for i := 0; i < n; i++ {
-			c := &stCase{entry: ei, init: map[string][]stEntry{}, maps: map[string][]stEntry{}}
+			c := &stCase{entry: ei, init: map[string][]stEntry{}}
 			c.pkt, c.plen = randomPacket(rng, capacity)
 			c.now = uint64(rng.Int63n(1 << 50))
 			if rng.Intn(4) == 0 {
 				c.now = uint64(rng.Int63n(4000)) * 1000000000
 			}
 			caseSeed := rng.Uint64()
-			hitPct := []uint64{0, 50, 80, 100}[rng.Intn(4)]
+			hitPcts := map[string]uint64{}
+			for _, mn := range mod.MapOrder {
+				hitPcts[mn] = []uint64{0, 50, 90, 100, 100}[rng.Intn(5)]
+			}
 			body := func(in *Interp) interface{} {
 				tc := in.tc
 				pkt := in.NewConcretePacket("pkt", c.pkt[:c.plen], capacity)
@@ -661,7 +792,7 @@ func selftestProg(prog string, n int, seed int64, capacity int, tmp string) int 
 								panic(unsupported("selftest: symbolic map key in a concrete run (uninitialised memory?)"))
 							}
 							h := fnv64([]byte(mname), kb) ^ caseSeed
-							if (h>>8)%100 >= hitPct {
+							if (h>>8)%100 >= hitPcts[mname] {
 								return nil
 							}
 							val := biasedBytes(rand.New(rand.NewSource(int64(h))), m.ValSize)
@@ -670,12 +801,13 @@ func selftestProg(prog string, n int, seed int64, capacity int, tmp string) int 
 						}
 					}
 				}
-				env := &LLEnv{Packet: pkt, Maps: ms, Now: tc.Const(c.now, 64), Choose: func(string) bool { return true }}
+				env := &LLEnv{Packet: pkt, Maps: ms, Now: tc.Const(c.now, 64), Choose: func(string) bool { return true }, Cover: cover}
 				run, _ := in.RunBPF(prog, ep[0], ep[1], env)
 				if !run.Verdict.IsConst() || !pkt.Len.IsConst() {
 					c.problem = "symbolic verdict or length in a concrete run"
 					return nil
 				}
+				nMerged += run.Merged
 				c.verdict = int32(run.Verdict.V)
 				c.newLen = int(pkt.Len.V)
 				ob, ok := termBytes(pkt.Bytes[:c.newLen])
@@ -690,21 +822,27 @@ func selftestProg(prog string, n int, seed int64, capacity int, tmp string) int 
 							continue
 						}
 						kb, ok1 := termBytes(e.Key)
-						vb, ok2 := termBytes(e.Val.Bytes)
+						vh, wild, ok2 := termHex(e.Val.Bytes)
 						if !ok1 || !ok2 {
 							c.problem = "symbolic map contents after a concrete run in " + mn
 							return nil
 						}
-						c.maps[mn] = append(c.maps[mn], stEntry{kb, vb})
+						if wild > 0 {
+							c.uninit = append(c.uninit, fmt.Sprintf("value of map %s: %s", mn, vh))
+						}
+						c.maps = append(c.maps, mn+" "+hex.EncodeToString(kb)+" "+vh)
 					}
 				}
 				for _, ev := range env.Events {
-					eb, ok := termBytes(ev.Data)
+					eh, wild, ok := termHex(ev.Data)
 					if !ok {
-						c.problem = "symbolic event data (uninitialised bytes sent to user space?) in " + ev.Map
+						c.problem = "symbolic event data in " + ev.Map
 						return nil
 					}
-					c.events = append(c.events, ev.Map+" "+hex.EncodeToString(eb))
+					if wild > 0 {
+						c.uninit = append(c.uninit, fmt.Sprintf("record sent to %s: %s", ev.Map, eh))
+					}
+					c.events = append(c.events, ev.Map+" "+eh)
 				}
 				return c
 			}
@@ -789,12 +927,7 @@ func selftestProg(prog string, n int, seed int64, capacity int, tmp string) int 
 			report("no native result (native driver stopped early)")
 		default:
 			nr := nat[i]
-			var irMaps []string
-			for _, mn := range mod.MapOrder {
-				for _, e := range c.maps[mn] {
-					irMaps = append(irMaps, mn+" "+hex.EncodeToString(e.key)+" "+hex.EncodeToString(e.val))
-				}
-			}
+			irMaps := append([]string(nil), c.maps...)
 			sort.Strings(irMaps)
 			sort.Strings(nr.maps)
 			switch {
@@ -810,11 +943,11 @@ func selftestProg(prog string, n int, seed int64, capacity int, tmp string) int 
 				fails++
 				st[1]++
 				report("packet bytes differ\n      IR     %s\n      native %s", hex.EncodeToString(c.outPkt), nr.pkt)
-			case strings.Join(irMaps, "\n") != strings.Join(nr.maps, "\n"):
+			case !hexListMatch(irMaps, nr.maps):
 				fails++
 				st[1]++
 				report("map contents differ\n      IR:\n        %s\n      native:\n        %s", strings.Join(irMaps, "\n        "), strings.Join(nr.maps, "\n        "))
-			case strings.Join(c.events, "\n") != strings.Join(nr.events, "\n"):
+			case !hexListMatch(c.events, nr.events):
 				fails++
 				st[1]++
 				report("emitted events differ\n      IR     %v\n      native %v", c.events, nr.events)
@@ -826,6 +959,33 @@ func selftestProg(prog string, n int, seed int64, capacity int, tmp string) int 
 		}
 		perEntry[c.entry] = st
 	}
+	uninitSeen := map[string]int{}
+	for _, c := range cases {
+		for _, u := range c.uninit {
+			// normalise to the positions of the uninitialised bytes
+			i := strings.LastIndex(u, " ")
+			var pos []string
+			for k := 0; k+1 < len(u[i+1:]); k += 2 {
+				if u[i+1+k] == '?' {
+					pos = append(pos, fmt.Sprint(k/2))
+				}
+			}
+			uninitSeen[eps[c.entry][0]+": "+u[:i]+" bytes ["+strings.Join(pos, ",")+"]"]++
+		}
+	}
+	for _, fn := range mod.FuncOrder {
+		f := mod.Funcs[fn]
+		hit := 0
+		for _, b := range f.Blocks {
+			if cover[fn+":"+b.Name] {
+				hit++
+			}
+		}
+		fmt.Printf("   coverage %s: %d/%d basic blocks executed by the random cases\n", fn, hit, len(f.Blocks))
+	}
+	for k, n := range uninitSeen {
+		fmt.Printf("   NOTE x%d uninitialised stack/ring-buffer bytes (struct padding) leave the program in %s\n", n, k)
+	}
 	for ei, ep := range eps {
 		st := perEntry[ei]
 		fmt.Printf("selftest %s:%s (%s): %d cases, %d mismatches, %d IR-side problems, verdicts %v\n", prog, ep[0], ep[1], st[0], st[1], st[2], verdictSeen[ep[0]])
@@ -833,7 +993,7 @@ func selftestProg(prog string, n int, seed int64, capacity int, tmp string) int 
 	if runErr != nil || stderr.Len() > 0 {
 		fmt.Printf("selftest %s: native driver: err=%v stderr:\n%s\n", prog, runErr, firstLines(stderr.String(), 40))
 	}
-	fmt.Printf("selftest %s: IR side %.1fs, total %.1fs\n", prog, irTime.Seconds(), time.Since(t0).Seconds())
+	fmt.Printf("selftest %s: IR side %.1fs, total %.1fs, if-converted branches %d\n", prog, irTime.Seconds(), time.Since(t0).Seconds(), nMerged)
 	if fails > 0 || problems > 0 || runErr != nil {
 		return 1
 	}
